@@ -112,6 +112,9 @@ impl MT205 {
         // Parse optional Field 72
         let sender_to_receiver = parser.parse_optional_field::<Field72>("72")?;
 
+        // Reject content left after the last field of the message
+        verify_parser_complete(&parser)?;
+
         Ok(MT205 {
             transaction_reference,
             related_reference,
